@@ -585,6 +585,28 @@ pub fn run(args: &Args) {
 		}
 	}
 
+	// ---------------- Part A2: mbtiles files with SQLite storage-class / schema freedoms (oracle only)
+	for v in 0..args.n(10, 40) as u64 {
+		let coords = gen_coords(&mut rng, 40, true);
+		let (fmt, comp) = if rng.chance(1, 2) { (1, 1) } else { (2, 0) };
+		let tiles = assign_ids_style(&mut rng, &coords, &mut next, 0);
+		let specs = vec![SrcSpec { fmt, comp, kind: format!("mbx{v}"), tiles, fail: vec![] }];
+		let w = World::build(&rt, &scratch, &specs);
+		out.count("A2_world_mbx");
+		if !w.usable() {
+			out.count("A2_world_mbx_open_failed");
+			out.notes.push(format!("mbx variant {v}: {}", trunc(w.open_errors[0].as_deref().unwrap_or(""), 160)));
+			w.cleanup();
+			continue;
+		}
+		let levels = ask_levels(&mut rng, &specs);
+		for (z, present) in levels.iter() {
+			let boxes = gen_boxes(&mut rng, *z, present, 1, args.n(10, 24));
+			run_in_world(&rt, &mut out, &mut id, &w, "C02", "Y", "-", &boxes_arg(&boxes));
+		}
+		w.cleanup();
+	}
+
 	// ---------------- Part B: generated pipelines
 	let n_b = args.n(10, 80);
 	let max_depth = args.n(3, 5) as u32;
